@@ -301,6 +301,15 @@ def _gen_case(rng, small, force_kind, simple):
             node = {"k": "scale", "c": rnd(rng, 0.1, 4), "e": node, "left": rng.random() < 0.7}
         summands.append(node)
     e = summands[0] if nsum == 1 else {"k": "sum", "es": summands}
+    outer_f = {}
+    if (not simple) and rng.random() < 0.3:
+        # (lh_1 + ... + lh_k) @ model: an invertible point-wise model per key; the outer position is model^-1(inner position)
+        for key, cls in pos_cls.items():
+            outer_f[key] = gen_inv_f(rng, n, cls, cplxk[key])
+        if any(f["f"] != "id" for f in outer_f.values()):
+            e = {"k": "chain", "e": e, "f": outer_f}
+        else:
+            outer_f = {}
     if (not simple) and rng.random() < 0.3:
         e = {"k": "scale", "c": rnd(rng, 0.1, 4), "e": e, "left": rng.random() < 0.7}
     if (not simple) and rng.random() < 0.3:
@@ -319,7 +328,44 @@ def _gen_case(rng, small, force_kind, simple):
             if pos_cls[key] == "real" and not cplxk[key]:
                 pos[key] = [v if abs(v) >= 0.05 else 0.25 for v in blk]
                 pos2[key] = [v if abs(v) >= 0.05 else -0.3 for v in pos2[key]]
+    for key, f in outer_f.items():
+        pos[key] = f_inverse(f, pos[key])
+        pos2[key] = f_inverse(f, pos2[key])
     return {"op": "lh", "dom": dom, "e": e, "pos": pos, "pos2": pos2, "cplx": cplxk, "cls": pos_cls}
+
+
+def gen_inv_f(rng, n, cls, cplx):
+    """an invertible point-wise function whose image contains the class `cls`"""
+    if cplx:
+        return rng.choice([{"f": "id"}, {"f": "scal", "c": rnd(rng, 0.3, 2.5)}])
+    opts = [{"f": "id"}, {"f": "scal", "c": rnd(rng, 0.3, 2.5)}, {"f": "diag", "v": [rnd(rng, 0.3, 2) for _ in range(n)]}]
+    if cls == "real":
+        opts.append({"f": "scal", "c": rnd(rng, -2, -0.3)})
+    else:
+        opts += [{"f": "exp"}, {"f": "expscal", "c": rng.choice([-1, 1]) * rnd(rng, 0.3, 0.9)}, {"f": "sqr"}]
+        if cls in ("unit", "prob"):
+            opts.append({"f": "sigmoid"})
+    return rng.choice(opts)
+
+
+def f_inverse(f, block):
+    t = f["f"]
+    if t == "id":
+        return list(block)
+    if t == "scal":
+        return [v / f["c"] for v in block]
+    if t == "diag":
+        m = len(f["v"])
+        return [v / f["v"][j % m] for j, v in enumerate(block)]
+    if t == "exp":
+        return [math.log(v) for v in block]
+    if t == "expscal":
+        return [math.log(v) / f["c"] for v in block]
+    if t == "sqr":
+        return [math.sqrt(v) for v in block]
+    if t == "sigmoid":
+        return [math.atanh(2 * v - 1) for v in block]
+    raise ValueError(t)
 
 
 # ------------------------------------------------------------------------------------------------
@@ -411,6 +457,13 @@ def model_node(case, e):
         for s in e["es"][1:]:
             r = {"k": "add", "a": r, "b": model_node(case, s)}
         return r
+    if k == "chain" and e["e"]["k"] in ("sum", "scale", "chain", "lin", "ham"):
+        fs = []
+        for kk, m, c in layout(case):
+            kk = "" if kk is None else kk
+            f = e["f"].get(kk, {"f": "id"})
+            fs += [model_pf(f, j % m) for j in range(m * (2 if c else 1))]
+        return {"k": "ptw", "fs": fs, "e": model_node(case, e["e"])}
     leaf = e["e"] if k in ("chain", "lin") else e
     keys = leaf_keys(leaf)
     inner = {"k": "leaf", "l": model_leaf(leaf, n)}
